@@ -108,97 +108,84 @@ end
 
 def isWs (c : UInt8) : Bool := c = 0x20 || c = 0x0a || c = 0x0d || c = 0x09
 
-def skipWs (buf : ByteArray) : Nat → Nat → Nat
-  | 0, i => i
-  | f+1, i => if i < buf.size ∧ isWs (buf.get! i) then skipWs buf f (i+1) else i
+def skipWs (b : Bytes) : Bytes := b.dropWhile isWs
 
-/-- end of a string body: index of the closing quote -/
-def strEnd (buf : ByteArray) : Nat → Nat → Option Nat
-  | 0, _ => none
-  | f+1, i =>
-    if i ≥ buf.size then none
-    else if buf.get! i = 0x22 then some i
-    else if buf.get! i = 0x5c then strEnd buf f (i+2)
-    else strEnd buf f (i+1)
+/-- the body of a string up to its closing quote (an escape takes two bytes), and what follows it -/
+def strBody : Bytes → Option (Bytes × Bytes)
+  | [] => none
+  | 0x22 :: t => some ([], t)
+  | 0x5c :: c :: t => (strBody t).map (fun br => (0x5c :: c :: br.1, br.2))
+  | c :: t => if c = 0x5c then none else (strBody t).map (fun br => (c :: br.1, br.2))
 
-def scalarEnd (buf : ByteArray) : Nat → Nat → Nat
-  | 0, i => i
-  | f+1, i =>
-    if i ≥ buf.size then i
-    else
-      let c := buf.get! i
-      if c = 0x2c || c = 0x5d || c = 0x7d || isWs c then i else scalarEnd buf f (i+1)
+def isDelim (c : UInt8) : Bool := c = 0x2c || c = 0x5d || c = 0x7d || isWs c
 
 def slice (buf : ByteArray) (a b : Nat) : Bytes := (buf.extract a b).toList
 
 mutual
-def parseVal (buf : ByteArray) : Nat → Nat → Option (JsonVal × Nat)
+def parseVal : Nat → Bytes → Option (JsonVal × Bytes)
   | 0, _ => none
-  | f+1, i0 =>
-    let i := skipWs buf buf.size i0
-    if i ≥ buf.size then none
-    else
-      let c := buf.get! i
-      if c = 0x22 then
-        match strEnd buf buf.size (i+1) with
-        | some e => some (.lit (slice buf i (e+1)), e+1)
-        | none => none
-      else if c = 0x5b then
-        let j := skipWs buf buf.size (i+1)
-        if j < buf.size ∧ buf.get! j = 0x5d then some (.arr [], j+1)
-        else match parseElems buf f j with
-          | some (xs, e) => some (.arr xs, e)
-          | none => none
-      else if c = 0x7b then
-        let j := skipWs buf buf.size (i+1)
-        if j < buf.size ∧ buf.get! j = 0x7d then some (.obj [], j+1)
-        else match parseMembers buf f j with
-          | some (kvs, e) => some (.obj kvs, e)
-          | none => none
-      else
-        let e := scalarEnd buf buf.size i
-        if e = i then none else some (.lit (slice buf i e), e)
-def parseElems (buf : ByteArray) : Nat → Nat → Option (List JsonVal × Nat)
-  | 0, _ => none
-  | f+1, i =>
-    match parseVal buf f i with
-    | none => none
-    | some (v, e0) =>
-      let e := skipWs buf buf.size e0
-      if e < buf.size ∧ buf.get! e = 0x2c then
-        match parseElems buf f (e+1) with
-        | some (xs, e') => some (v :: xs, e')
-        | none => none
-      else if e < buf.size ∧ buf.get! e = 0x5d then some ([v], e+1)
-      else none
-def parseMembers (buf : ByteArray) : Nat → Nat → Option (List (Bytes × JsonVal) × Nat)
-  | 0, _ => none
-  | f+1, i0 =>
-    let i := skipWs buf buf.size i0
-    if i < buf.size ∧ buf.get! i = 0x22 then
-      match strEnd buf buf.size (i+1) with
+  | f+1, b0 =>
+    match skipWs b0 with
+    | [] => none
+    | 0x22 :: t =>
+      match strBody t with
+      | some (body, r) => some (.lit (0x22 :: body ++ [0x22]), r)
       | none => none
-      | some ke =>
-        let c := skipWs buf buf.size (ke+1)
-        if c < buf.size ∧ buf.get! c = 0x3a then
-          match parseVal buf f (c+1) with
+    | 0x5b :: t =>
+      match skipWs t with
+      | 0x5d :: r => some (.arr [], r)
+      | t' => match parseElems f t' with
+        | some (xs, r) => some (.arr xs, r)
+        | none => none
+    | 0x7b :: t =>
+      match skipWs t with
+      | 0x7d :: r => some (.obj [], r)
+      | t' => match parseMembers f t' with
+        | some (kvs, r) => some (.obj kvs, r)
+        | none => none
+    | c :: t =>
+      if isDelim c then none
+      else some (.lit (c :: t.takeWhile (fun x => !isDelim x)), t.dropWhile (fun x => !isDelim x))
+def parseElems : Nat → Bytes → Option (List JsonVal × Bytes)
+  | 0, _ => none
+  | f+1, b =>
+    match parseVal f b with
+    | none => none
+    | some (v, r0) =>
+      match skipWs r0 with
+      | 0x2c :: r =>
+        match parseElems f r with
+        | some (xs, r') => some (v :: xs, r')
+        | none => none
+      | 0x5d :: r => some ([v], r)
+      | _ => none
+def parseMembers : Nat → Bytes → Option (List (Bytes × JsonVal) × Bytes)
+  | 0, _ => none
+  | f+1, b =>
+    match skipWs b with
+    | 0x22 :: t =>
+      match strBody t with
+      | none => none
+      | some (k, r1) =>
+        match skipWs r1 with
+        | 0x3a :: r2 =>
+          match parseVal f r2 with
           | none => none
-          | some (v, e0) =>
-            let e := skipWs buf buf.size e0
-            if e < buf.size ∧ buf.get! e = 0x2c then
-              match parseMembers buf f (e+1) with
-              | some (kvs, e') => some ((slice buf (i+1) ke, v) :: kvs, e')
+          | some (v, r3) =>
+            match skipWs r3 with
+            | 0x2c :: r =>
+              match parseMembers f r with
+              | some (kvs, r') => some ((k, v) :: kvs, r')
               | none => none
-            else if e < buf.size ∧ buf.get! e = 0x7d then some ([(slice buf (i+1) ke, v)], e+1)
-            else none
-        else none
-    else none
+            | 0x7d :: r => some ([(k, v)], r)
+            | _ => none
+        | _ => none
+    | _ => none
 end
 
 def parse (b : Bytes) : Option JsonVal :=
-  let buf := ByteArray.mk b.toArray
-  match parseVal buf (buf.size + 2) 0 with
-  | some (v, e) => if skipWs buf buf.size e = buf.size then some v else none
+  match parseVal (b.length + 2) b with
+  | some (v, r) => if skipWs r = [] then some v else none
   | none => none
 
 /-! ### the reference: go-mysql-server's in-memory mutations -/
